@@ -861,6 +861,17 @@ class CommandPipeline:
         self._safe_close(s.captured_stderr)
         for ch in s.pipe_channels:
             ch.close()
+        # Non-last stages are join()ed, never wait()ed: give back the SIGINT
+        # handlers they replaced, newest first (the last stage restored its
+        # own in wait()).
+        for prev in reversed(self.procs[:-1]):
+            restore = getattr(prev, "_restore_sigint", None)
+            if (
+                restore is not None
+                and hasattr(prev, "is_alive")
+                and not prev.is_alive()
+            ):
+                restore()
         if p is None:
             return
         self._safe_close(p.stdin)
